@@ -84,10 +84,22 @@ def wrapUp : Nat → Nat → Nat → Nat → Nat → Except Fault Nat
 
 namespace Transport
 
+/-- an empty or inverted loop region cannot be looped over: it is dropped
+    (mirrors the `.filter(|(loop_start, loop_end)| loop_end > loop_start)` in Transport::new / set_loop_region) -/
+def validLoop (loopRegion : Option (Nat × Nat)) : Option (Nat × Nat) :=
+  loopRegion.filter (fun r => decide (r.1 < r.2))
+
+@[simp] theorem validLoop_none : validLoop none = none := rfl
+@[simp] theorem validLoop_some_of_lt (a b : Nat) (h : a < b) : validLoop (some (a, b)) = some (a, b) := by
+  simp [validLoop, Option.filter, h]
+theorem validLoop_some_of_not_lt (a b : Nat) (h : ¬ a < b) : validLoop (some (a, b)) = none := by
+  simp [validLoop, Option.filter, h]
+
 /-- mirrors: Transport::new (the region is already converted to frames; `num_frames - 1 - start_position`
     underflows when reversed with `start_position ≥ num_frames`) -/
 def new (startPosition : Nat) (loopRegion : Option (Nat × Nat)) (reverse : Bool) (numFrames : Nat) :
     Except Fault Transport :=
+  let loopRegion := validLoop loopRegion
   if reverse then
     if startPosition + 1 ≤ numFrames then
       .ok { position := numFrames - 1 - startPosition, loopRegion := loopRegion, playing := true }
@@ -96,7 +108,7 @@ def new (startPosition : Nat) (loopRegion : Option (Nat × Nat)) (reverse : Bool
 
 /-- mirrors: Transport::set_loop_region -/
 def setLoopRegion (t : Transport) (loopRegion : Option (Nat × Nat)) : Transport :=
-  { t with loopRegion := loopRegion }
+  { t with loopRegion := validLoop loopRegion }
 
 /-- the wrap loop of `increment_position` applied to the already incremented position `p` -/
 def incWrap (t : Transport) (p : Nat) : Except Fault Nat :=
